@@ -453,6 +453,7 @@ func ruleC09(w *World, r *Report) {
 	ruleC09GateBits(w, r)
 	ruleC09MeterArray(w, r)
 	ruleC09QciTable(w, r)
+	ruleNoSessionQerWithoutAll(w, r, "C09", "R09.11")
 }
 
 // symAtPathDeep resolves phis along the path recursively through arithmetic and calls.
